@@ -21,7 +21,7 @@ REQUIRED = {"C15": {"expiry-hop": 500, "expiry-finish": 100, "re-entry-by-next_s
                     "in-state-done": 100, "post-end-iteration": 300, "exact-landing-strict": 100, "tie-accepted": 20,
                     "re-entered-timed-state-ran": 50, "states-inherited-through-two-or-more-levels": 100,
                     "second-mode-with-same-state-names-in-process": 200, "other-mode-ran-between-periods": 50,
-                    "underscore-named-timed-state": 100}}
+                    "underscore-named-timed-state": 100, "dashboard-edited-while-the-period-runs": 300}}
 ASSUMPTIONS = {"C15": ["an expiry comparison landing exactly on start+duration is a tie unless every operand lies on the 1/64 s grid"]}
 
 NAMES = ["sa", "sb", "sc", "sd", "se", "sf"]
@@ -445,6 +445,13 @@ class Driver:
                     pass
                 if not do(["iter", tm]):
                     return ops
+                if timed and rng.random() < 0.03:
+                    # somebody edits a duration on the dashboard while the period is running: it counts from the next on_enable()
+                    st_ = rng.choice(timed)
+                    v_ = GRID * rng.choice([0, 1, 3, 8]) if grid else rng.choice([0, period, 3 * period, rng.randrange(1, 5 * period)])
+                    self.ev("dashboard-edited-while-the-period-runs")
+                    if not do(["sd_dur", st_["name"], v_]):
+                        return ops
                 adv = period
                 r = rng.random()
                 if r < 0.03:
